@@ -247,6 +247,10 @@ def colored_render_to_stream(
                     stream.write(str(color))
 
             elif isinstance(sdoc, SAnnotationPop):
+                # Only token annotations pushed a color.
+                if not isinstance(sdoc.value, Token):
+                    continue
+
                 try:
                     colorstack.pop()
                 except IndexError:
